@@ -108,19 +108,25 @@ func (c *Compiler) getVariables(t *ast.Task, call *Call, evaluateShVars bool) (*
 		}
 	}
 
-	// The task's directory may refer to global and include variables, so it is
-	// resolved only once those are known.
+	// The task's directory may refer to variables of any layer (global, include,
+	// call, the task's own), so it is resolved each time a variable needs it,
+	// over what is known by then, the same way compiledTask resolves it.
 	var taskRangeFunc func(k string, v ast.Var) error
 	if t != nil {
-		// NOTE(@andreynering): We're manually joining these paths here because
-		// this is the raw task, not the compiled one.
-		cache := &templater.Cache{Vars: result}
-		dir := templater.Replace(t.Dir, cache)
-		if err := cache.Err(); err != nil {
-			return nil, err
+		taskRangeFunc = func(k string, v ast.Var) error {
+			// NOTE(@andreynering): We're manually joining these paths here because
+			// this is the raw task, not the compiled one.
+			cache := &templater.Cache{Vars: result}
+			dir := templater.Replace(t.Dir, cache)
+			if err := cache.Err(); err != nil {
+				return err
+			}
+			dir, err := execext.ExpandLiteral(dir)
+			if err != nil {
+				return err
+			}
+			return getRangeFunc(filepathext.SmartJoin(c.Dir, dir))(k, v)
 		}
-		dir = filepathext.SmartJoin(c.Dir, dir)
-		taskRangeFunc = getRangeFunc(dir)
 	}
 	if t != nil {
 		for k, v := range t.IncludedTaskfileVars.All() {
